@@ -2,6 +2,7 @@ package encoder
 
 import (
 	"bytes"
+	"context"
 	"encoding"
 	"encoding/base64"
 	"encoding/json"
@@ -398,6 +399,15 @@ func AppendNumber(_ *RuntimeContext, b []byte, n json.Number) ([]byte, error) {
 	return b, nil
 }
 
+// callerContext is the context.Context of this call: the pooled Option keeps
+// the one of an earlier call when the current call did not supply any.
+func callerContext(ctx *RuntimeContext) context.Context {
+	if (ctx.Option.Flag&ContextOption) != 0 && ctx.Option.Context != nil {
+		return ctx.Option.Context
+	}
+	return context.Background()
+}
+
 func AppendMarshalJSON(ctx *RuntimeContext, code *Opcode, b []byte, v interface{}) ([]byte, error) {
 	rv := reflect.ValueOf(v) // convert by dynamic interface type
 	if (code.Flags & AddrForMarshalerFlags) != 0 {
@@ -421,7 +431,7 @@ func AppendMarshalJSON(ctx *RuntimeContext, code *Opcode, b []byte, v interface{
 		if !ok {
 			return AppendNull(ctx, b), nil
 		}
-		stdctx := ctx.Option.Context
+		stdctx := callerContext(ctx)
 		if ctx.Option.Flag&FieldQueryOption != 0 {
 			stdctx = SetFieldQueryToContext(stdctx, code.FieldQuery)
 		}
@@ -469,7 +479,7 @@ func AppendMarshalJSONIndent(ctx *RuntimeContext, code *Opcode, b []byte, v inte
 		if !ok {
 			return AppendNull(ctx, b), nil
 		}
-		b, err := marshaler.MarshalJSON(ctx.Option.Context)
+		b, err := marshaler.MarshalJSON(callerContext(ctx))
 		if err != nil {
 			return nil, &errors.MarshalerError{Type: reflect.TypeOf(v), Err: err}
 		}
